@@ -22,7 +22,9 @@ PARSERS: Dict[str, Set[str]] = {
     "xml.etree.ElementTree.fromstring": {"ET.ParseError", "ParseError", "SyntaxError", "xml.etree.ElementTree.ParseError"},
     "xml.dom.minidom.parseString": {"xml.parsers.expat.ExpatError", "ExpatError"},
     "re.compile": {"re.error"},
-    "ast.parse": {"SyntaxError"},
+    # the Python parser raises SyntaxError, ValueError (NUL bytes), RecursionError and MemoryError on (legal but extreme) input
+    "ast.parse": set(),
+    "asttokens.ASTTokens": set(),
 }
 CATCH_ALL = {"Exception", "BaseException"}
 SERIALIZERS = {"ET.tostring", "xml.etree.ElementTree.tostring", "json.dumps"}
